@@ -26,8 +26,8 @@ Next == SetRef \/ Upd \/ Rst
 Spec == Init /\ [][Next]_vars
 Bound == TLCGet("level") <= Depth
 
-LC == INSTANCE Lifecycle WITH RestartTo <- (IF DB = 1 THEN 2 ELSE 1), Incs <- (IF DB = 1 THEN {1, 2} ELSE {1}),
-        HasRecs <- FALSE, EpochBound <- TRUE, RefRestart <- FALSE,
+LC == INSTANCE Lifecycle WITH ltab <- [restart |-> (IF DB = 1 THEN 2 ELSE 1), incs |-> (IF DB = 1 THEN {1, 2} ELSE {1}),
+                                       hasrecs |-> FALSE, epochbound |-> TRUE, refrestart |-> FALSE],
         total <- h.total, since <- h.since, state <- h.st, recs <- <<-1, -1>>, warm <- (epochBatches >= DB)
 LCSpec == LC!Spec
 TypeOK == LC!TypeOK /\ h.st # "warning"
